@@ -2,8 +2,10 @@
 
 package scen
 
+import "verifsim/engine"
+
 // YieldBuild reports whether the library under test was rewritten with
 // statement-level yields (check.sh: build_yield).
 const YieldBuild = false
 
-func setYieldHook(f func()) {}
+func setSimHooks(sch *engine.Sched, stride int) {}
